@@ -4,7 +4,7 @@ import tables as T
 from cfg import cfg_of
 from flow import Taint, Tracker, callee_matches, field_reads, op_local, prep, backward
 from rules import CallGuard, CallSink, CmpGuard, RetSink, AggSink, BlockSink, FieldOptGuard, compare_sites
-from rules import PL
+from rules import PL, closure_truth_table
 from props.C04 import call_results
 from props.C10 import len_of, reads
 
@@ -180,6 +180,24 @@ def run(R):
             # `a && b` lowers to: switch a → [false → _0 = false] [true → _0 = b]; accept: _0 is never `true` on the rejecting side
             if tr.reject:
                 okr = okr and all(not (g.reach((d,)) & rt) for _, d in tr.reject)
+            # exact predicate: kept ⇔ reliable ∧ duration_since is Ok ∧ elapsed < addr_expiry_duration
+            def classify(b, cs, exp=exp, lim=lim):
+                la, lb = op_local(cs["a"]), op_local(cs["b"])
+                if la in exp and lb in lim and cs["op"] in ("Lt", "Gt"):
+                    return ("L", cs["op"] == "Lt")
+                if lb in exp and la in lim and cs["op"] in ("Lt", "Gt"):
+                    return ("L", cs["op"] == "Gt")
+                return None
+            tt = closure_truth_table(c, classify, call_atoms={AB + "BootstrapAddr::is_reliable": "R"}, result_atoms={"std::time::SystemTime::duration_since": "D"})
+            if tt is None:
+                pass    # closure shape the interpreter cannot evaluate (e.g. combinator form): the polarity checks above decide
+            else:
+                atoms, table = tt
+                for k, v in table.items():
+                    e = dict(k)
+                    if v != (e.get("R", False) and e.get("D", False) and e.get("L", False)):
+                        okr = False
+                okr = okr and set(atoms) == {"R", "D", "L"}
         if not okr:
             R.viol("C18.cleanup.retain", "retain-predicate", "clean-up does not keep exactly the addresses that are reliable and seen within addr_expiry_duration", pc, pc.lines[0])
         R.inst("C18.cleanup.retain", "K10 polarity", "addresses kept iff is_reliable() && now - last_seen < addr_expiry_duration", len(rel), okr)
